@@ -77,4 +77,12 @@ theorem slice_sites_padded :
     C16Sites.sliceSites.any (fun s => s.2.1 == "validateProve" && s.2.2.1 == "calcVrfValueRatio" && s.2.2.2) = true ∧
     (C16Sites.sliceSites.filter (fun s => s.2.2.1 == "calcVrfValueRatio")).length = 1 := by decide
 
+/-- No function of `common/ed25519/vrf.go`, `consensus/logical/vrf_with_stake.go`,
+    `consensus/vrf/vrf.go` (other than `init`) writes package-level state, as far as go/ast can
+    tell: no assignment to / into a package-level variable, no `&v`, no `append`/`copy` into its
+    backing array, no mutating method on a package-level receiver or on a local alias of one
+    (`rat1`, `max256`, `suite`, `one`, `two` are only read). This is what makes "deterministic
+    function of its inputs" independent of call history and of concurrent callers. -/
+theorem no_package_state_writes : C16Sites.stateWrites = [] := by decide
+
 end Rangers.Props.C16Gen
